@@ -12,12 +12,9 @@ RULE = ('structured extension lists (ids 3..127, frames < nb_frames <= 48, paylo
         'repacketizer op sequences (cat / out_range / out_range_impl with extension lists, pad_impl) from the C07 harness; '
         'a case is distinct by its (op, outcome kind) class')
 NOT_COVERED = [
-    'generate->parse round trip is proved only for lists on which the generator does not use the repeat mechanism '
-    '(generate_parse_partial: nb_frames = 1, empty last frame, differing first extensions ...); with repeats it is only '
-    'searched (S4) and tied differentially (S3)',
-    'parse->generate->parse fixed point: searched (S4) only',
+    'generate with an invalid payload length (short ID with len > 1, len < 0) => BAD_ARG: tied (S3) and searched (S4) only',
     'repacketizer carriage of extensions (merge/split): tied differentially through the C07 model (S3, ext-repack) and searched on '
-    'the implementation (S4); no theorem',
+    'the implementation (S4); theorem left to C07',
     'opus_int32 overflow of lengths: lengths are unbounded integers in the model (buffers < 2^31 assumed)',
     'iterator with nb_frames = 0 and a caller-raised frame_max > 0 (API misuse; the code then reports frame-0 extensions)',
 ]
@@ -27,16 +24,13 @@ REQUIRED_THEOREMS = ['OpusProps.C16.iter_safe', 'OpusProps.C16.iter_terminates',
                      'OpusProps.C16.parse_ext_stable_sort',
                      'OpusProps.C16.generate_dry_eq_written', 'OpusProps.C16.generate_exact_and_smaller',
                      'OpusProps.C16.generate_within', 'OpusProps.C16.generate_bad_arg',
-                     'OpusProps.C16.generate_parse_partial', 'OpusProps.C16.parse_canonical']
-UNPROVED = ['generate_parse (P1, full): parse_ext(generate(exts)) = stable sort by frame of exts for ALL valid lists, i.e. '
-            'including the lists on which the generator uses the "repeat these extensions" mechanism; proved only under '
-            'NoRepeat (generate_parse_partial). Missing: the invariant tying frame_repeat_idx/last_long_idx of the generator to '
-            'repeat_data/last_long/trailing_short_len of the iterator.',
-            'fixed_point (P1): parse(generate(parse x)) = parse x for arbitrary bytes x (needs the full generate_parse)',
-            'generate: short-ID extension with len > 1 or any extension with len < 0 => OPUS_BAD_ARG (proved only for bad id/frame/'
-            'nb_frames: the length check sits inside write_extension_payload and can be preceded by BUFFER_TOO_SMALL)',
-            'repack_carries_ext (P1, with C07): extension carriage through opus_repacketizer_out_range_impl is tied (S3) and searched (S4) '
-            'only',
+                     'OpusProps.C16.generate_parse', 'OpusProps.C16.generate_parse_ext', 'OpusProps.C16.fixed_point',
+                     'OpusProps.C16.parse_canonical']
+UNPROVED = ['generate: short-ID extension with len > 1 or any extension with len < 0 => OPUS_BAD_ARG (proved only for bad id/frame/'
+            'nb_frames: the length check sits inside write_extension_payload; proving that every extension is reached needs the '
+            'generator specification re-proved without the length-validity hypothesis)',
+            'repack_carries_ext (with C07): extension carriage through opus_repacketizer_out_range_impl is tied (S3) and searched (S4) '
+            'here; the theorem is stated by the C07 owner on top of generate_parse / scan_agree',
             'int_ranges: lengths/positions are unbounded Int/Nat in the model (opus_int32 overflow for buffers >= 2^31 not excluded)']
 
 
@@ -224,7 +218,8 @@ def search(ctx):
 LEVEL_TEXT = ('proof of the Lean transcription of src/extensions.c: the iterator terminates by construction and is proved never to '
               'read outside the padding, never to trip its asserts, and to report only extensions inside the buffer that belong to '
               'existing frames; count/parse/iterate agree; generator size clauses (dry = written, exact size suffices, smaller '
-              'refused); round trip proved for lists without repeat-eligible runs (partial), the repeat mechanism is tied and searched')
+              'refused, nothing written outside); full generate->parse / parse_ext round trip including the repeat mechanism, and the '
+              'parse->generate->parse fixed point')
 LEVEL_NOTE = ('trusted: Lean kernel; the correspondence harness and line protocol; bytes as naturals < 256; C int as unbounded Int. '
-              'Round trip through the repeat mechanism and repacketizer carriage rest on S3/S4 only.')
+              'Repacketizer carriage and BAD_ARG for invalid payload lengths rest on S3/S4 only.')
 TECHNIQUE = 'Lean 4 theorems about an executable transcription + differential correspondence under ASan/UBSan + property search'
